@@ -32,6 +32,21 @@ use std::{
 pub type AbraInt = i64;
 pub type AbraFloat = f64;
 
+/// `a ^ b` using the exponent at its full 64-bit width.
+pub(crate) fn checked_int_pow(a: AbraInt, b: AbraInt) -> Option<AbraInt> {
+    match u32::try_from(b) {
+        Ok(e) => a.checked_pow(e),
+        // an exponent above u32::MAX only has a representable power for 0, 1 and -1
+        Err(_) if b > 0 => match a {
+            0 => Some(0),
+            1 => Some(1),
+            -1 => Some(if b % 2 == 0 { 1 } else { -1 }),
+            _ => None,
+        },
+        Err(_) => a.checked_pow(b as u32),
+    }
+}
+
 const GC_PAUSE_FACTOR: usize = 2;
 const GC_STEP_FACTOR: usize = 2;
 
@@ -1803,7 +1818,7 @@ impl VmGreenThread {
             Instr::PowerInt(dest, reg1, reg2) => {
                 let b = self.load_offset_or_top(reg2).get_int(self);
                 let a = self.load_offset_or_top(reg1).get_int(self);
-                let Some(c) = a.checked_pow(b as u32) else {
+                let Some(c) = checked_int_pow(a, b) else {
                     self.error = Some(
                         self.make_error(VmErrorKind::IntegerOverflowUnderflow)
                             .into(),
@@ -1814,7 +1829,7 @@ impl VmGreenThread {
             }
             Instr::PowerIntImm(dest, reg1, imm) => {
                 let a = self.load_offset_or_top(reg1).get_int(self);
-                let Some(c) = a.checked_pow(self.shared.int_constants[imm as usize] as u32) else {
+                let Some(c) = checked_int_pow(a, self.shared.int_constants[imm as usize]) else {
                     self.error = Some(
                         self.make_error(VmErrorKind::IntegerOverflowUnderflow)
                             .into(),
